@@ -11,6 +11,7 @@ import (
 	"fmt"
 	"go/token"
 	"go/types"
+	"os"
 	"sort"
 	"strings"
 
@@ -935,6 +936,9 @@ type byteFlow struct {
 
 // StreamTainted computes the set of array objects that may hold bytes copied from the given
 // seed objects (the caller's input buffers): closure over copy / append / Read-style transfers.
+// TaintDebug: when set, StreamTainted reports how objects whose name contains it become tainted.
+var TaintDebug string
+
 func (a *Analysis) StreamTainted(seed func(o *Obj) bool) map[*Obj]bool {
 	t := map[*Obj]bool{}
 	for _, o := range a.objs {
@@ -981,6 +985,15 @@ func (a *Analysis) StreamTainted(seed func(o *Obj) bool) map[*Obj]bool {
 				if !t[o] {
 					t[o] = true
 					changed = true
+					if TaintDebug != "" && strings.Contains(o.Label, TaintDebug) {
+						var srcs []string
+						for sl := range a.pts[f.src] {
+							if so := a.locList[sl].Obj; t[so] {
+								srcs = append(srcs, so.Label)
+							}
+						}
+						fmt.Fprintf(os.Stderr, "TAINT %s <- %v (reader=%v)\n", o.Label, srcs, f.reader)
+					}
 				}
 			}
 		}
